@@ -6,25 +6,34 @@ Require Import SkV.C04.Table SkV.C04.Known SkV.C04.Gen.
 Import ListNotations.
 Open Scope string_scope.
 
-(* what param_ok means when there are no exceptions: the argument ends up stored verbatim under its
-   own name, possibly through a chain of parent constructors that each forward it under that name *)
-Inductive stored_verbatim (t : list class_row) : string -> store -> Prop :=
-  | sv_here p : stored_verbatim t p SV
-  | sv_sklearn p : stored_verbatim t p (SX p)
+(* what param_ok means when there are no exceptions: the argument ends up stored as passed under its
+   own name - directly, through a reviewed validator that returns its argument or raises, or through
+   a chain of parent constructors that each forward it under that name *)
+Inductive stored_verbatim (vals : list string) (t : list class_row) : string -> store -> Prop :=
+  | sv_here p : stored_verbatim vals t p SV
+  | sv_validated p f : In f vals -> stored_verbatim vals t p (SC f)
+  | sv_sklearn p : stored_verbatim vals t p (SX p)
   | sv_parent p parent pr ps st' :
       lookup_row t parent = Some pr -> r_init pr = Some ps -> assoc ps p = Some st' ->
-      stored_verbatim t p st' -> stored_verbatim t p (SF parent p).
+      stored_verbatim vals t p st' -> stored_verbatim vals t p (SF parent p).
 
-Lemma param_ok_sound t : forall fuel cls p st,
-  param_ok [] t fuel cls p st = true -> stored_verbatim t p st.
+Lemma smem1_In x l : smem1 x l = true -> In x l.
+Proof.
+  unfold smem1. rewrite existsb_exists. intros [y [Hin H]]. apply String.eqb_eq in H. now subst.
+Qed.
+
+Lemma param_ok_sound vals t : forall fuel cls p st,
+  param_ok vals [] t fuel cls p st = true -> stored_verbatim vals t p st.
 Proof.
   induction fuel as [|fuel IH]; intros cls p st H; cbn in H.
-  - destruct st as [|h|parent q|q|]; try discriminate.
+  - destruct st as [|f|h|parent q|q|]; try discriminate.
     + constructor.
+    + constructor. now apply smem1_In.
     + rewrite andb_false_r in H. discriminate.
     + apply String.eqb_eq in H. subst. constructor.
-  - destruct st as [|h|parent q|q|]; try discriminate.
+  - destruct st as [|f|h|parent q|q|]; try discriminate.
     + constructor.
+    + constructor. now apply smem1_In.
     + apply andb_true_iff in H. destruct H as [Hq H]. apply String.eqb_eq in Hq. subst q.
       destruct (lookup_row t parent) as [pr|] eqn:E1; [|discriminate].
       destruct (r_init pr) as [ps|] eqn:E2; [|discriminate].
@@ -43,11 +52,11 @@ Qed.
 
 (* finite theorems over the regenerated table (vm_compute, lifted with forallb_forall) *)
 Theorem all_classes_store_verbatim_or_known :
-  forall row, In row class_table -> stores_ok_or_known known_ctor class_table row = true.
+  forall row, In row class_table -> stores_ok_or_known identity_validators known_ctor class_table row = true.
 Proof. apply forallb_forall. vm_compute. reflexivity. Qed.
 
 Theorem all_apply_methods_guarded_or_known :
-  forall row, In row class_table -> guarded_ok_or_known known_guard row = true.
+  forall row, In row class_table -> guarded_ok_or_known guard_exceptions row = true.
 Proof. apply forallb_forall. vm_compute. reflexivity. Qed.
 
 Theorem no_method_reassigns_a_parameter_or_known :
@@ -57,7 +66,7 @@ Proof. apply forallb_forall. vm_compute. reflexivity. Qed.
 (* readable corollaries *)
 Theorem ctor_param_verbatim_or_known : forall row ps p st,
   In row class_table -> r_init row = Some ps -> In (p, st) ps ->
-  param_ok known_ctor class_table FUEL (r_key row) p st = true.
+  param_ok identity_validators known_ctor class_table FUEL (r_key row) p st = true.
 Proof.
   intros row ps p st Hin Hi Hp. pose proof (all_classes_store_verbatim_or_known row Hin) as H.
   unfold stores_ok_or_known in H. rewrite Hi in H. rewrite forallb_forall in H.
@@ -67,7 +76,7 @@ Qed.
 Theorem apply_method_guard_first_or_known : forall row m g,
   In row class_table -> In (m, g) (r_methods row) ->
   (exists o, g = GG o \/ g = GA o \/ g = GX o) \/
-  (exists o, (g = GR o \/ exists w, g = GU o w) /\ gmem known_guard (r_key row) o m = true).
+  (exists o, (g = GR o \/ exists w, g = GU o w) /\ gmem guard_exceptions (r_key row) o m = true).
 Proof.
   intros row m g Hin Hm. pose proof (all_apply_methods_guarded_or_known row Hin) as H.
   unfold guarded_ok_or_known in H. rewrite forallb_forall in H. specialize (H (m, g) Hm).
